@@ -11,11 +11,11 @@ OBS = []
 
 
 def K(id, props, harness, fns, stmt, pkg="owlchess", tier="quick", assumes=(), timeout=900, mem_gb=10,
-      solver="kissat", bounded=None, expect_panic=None):
+      solver="kissat", bounded=None, expect_panic=None, mem_est=None):
     OBS.append(dict(id=id, props=list(props), backend="kani-bounded" if bounded else "kani-complete", pkg=pkg,
                     harness=harness,
                     fns=list(fns), stmt=stmt, tier=tier, assumes=list(assumes), timeout=timeout, mem_gb=mem_gb,
-                    solver=solver, bound=bounded, expect_panic=expect_panic))
+                    solver=solver, bound=bounded, expect_panic=expect_panic, mem_est=mem_est))
 
 
 def V(id, props, spec, fns, stmt, tier="quick", assumes=(), timeout=300, rlimit=30):
@@ -111,7 +111,7 @@ N("C15/attack/bishop-mask-subsets", ["C15"], A + "n15_bishop_enumerate_all_mask_
   "redundant cross-check: for all squares and all subsets of the bishop mask, bishop == sliding reference (exhaustive native evaluation)", tier="thorough")
 for _i in range(64):
     K("C15/attack/rook-sq%02d" % _i, ["C15", "C19"], A + "c15_rook_sq%02d" % _i, ["attack::rook"],
-      "square %d x all 2^64 occupancies: rook == sliding reference, lookup pointer in bounds (direct CBMC proof)" % _i, tier="thorough", timeout=3600, mem_gb=16)
+      "square %d x all 2^64 occupancies: rook == sliding reference, lookup pointer in bounds (direct CBMC proof)" % _i, tier="thorough", timeout=3600, mem_gb=16, mem_est=8)
 K("C15/between/all-pairs", ["C15", "C19"], "between::verif_kani::c15_between_all_pairs", ["between::bishop_strict", "between::rook_strict", "between::is_bishop_valid", "between::is_rook_valid"],
   "for all 64x64 pairs: is_bishop_valid iff distinct on a common diagonal, is_rook_valid iff distinct on a common rank/file; for aligned pairs *_strict(a,b) == *_strict(b,a) == squares strictly between")
 K("C15/between/spec-link", ["C15"], "between::verif_kani::c15_between_ref_is_sliding_geometry", [],
@@ -333,6 +333,35 @@ K("C12/fen/parse-cells", ["C12", "C08"], BD + "c12_parse_cells_total_len32", ["b
 K("C12/fen/record-tail", ["C12", "C08"], BD + "c12_raw_from_str_tail_total", ["<RawBoard as FromStr>::from_str", "board::parse_ep_source"],
   "for a fixed board field followed by ANY <= 20 bytes: from_str returns a value or an error, never panics; an accepted record formats to text that parses back to the same raw board, and its mark is on the rank appropriate to the side to move (parse-format-parse stability of the five trailing fields)",
   bounded="<= 20 bytes after the board field", timeout=3000, mem_gb=16)
+
+# ---------------------------------------------------------------------------------------------
+# spec-level lemmas (reference semantics only): C18, C02, C07 (d), class partition
+# ---------------------------------------------------------------------------------------------
+LM = "verif_lemmas::"
+IMPL_EQ_REF = ISLEGAL + GEN_ALL + ["C01/gen/dispatch", "C07/calc-outcome", "C07/insufficient", "C16/attackers/white", "C16/attackers/black", "C16/check-queries",
+                                   "C11/try-from/accepts"] + ["C06/semilegal/%s/%s" % (_k, _c) for _s, _k in KINDS for _c in ("w", "b")]
+K("C18/spec/attack-validity", ["C18"], LM + "c18_attack_and_validity_commute_with_mirrors", [],
+  "rules: for all raw boards, attackers / validity / insufficient material commute with the colour mirror (ranks flipped, colours, side, rights, mark swapped) and with the left-right mirror; both mirrors are involutions",
+  assumes=IMPL_EQ_REF, timeout=3000, mem_gb=16)
+K("C18/spec/moves-colour-mirror", ["C18"], LM + "c18_moves_commute_with_colour_mirror", [],
+  "rules: for all raw boards and all move tuples: well-formed / pseudo-legal / legal commute with the colour mirror and ref_apply(mirror) == mirror(ref_apply)", assumes=IMPL_EQ_REF, timeout=3000, mem_gb=16)
+K("C18/spec/moves-left-right-mirror", ["C18"], LM + "c18_moves_commute_with_left_right_mirror", [],
+  "rules: the same for the left-right mirror on boards without castling rights", assumes=IMPL_EQ_REF, timeout=3000, mem_gb=16)
+K("C18/spec/outcome", ["C18"], LM + "c18_outcome_commutes", [], "rules: the outcome class is the same under the colour mirror with the winner swapped", assumes=IMPL_EQ_REF)
+K("C02/spec/validity-preserved", ["C02"], LM + "c02_validity_preserved_by_legal_moves", [],
+  "rules: from every valid, normalised raw position every legal move leads to a valid position whose rights and mark are already normalised (so re-validating the result succeeds and reproduces it identically)", timeout=3000, mem_gb=16)
+K("C07/spec/castling-implies-step", ["C07"], LM + "c07_castling_legal_implies_king_step_legal", [],
+  "rules: if a castling is legal then the king's single step towards that rook is legal (so has_legal_moves may skip castling)", timeout=3000)
+K("C01/spec/partition", ["C01", "C06"], LM + "c01_classes_partition_pseudo_legal_moves", [],
+  "rules: every pseudo-legal move lies in exactly one generator class; captures (destination occupied or en passant) and non-captures partition them; non-captures split into promotions and non-promotions", timeout=3000)
+
+CH = "chain::verif_kani::"
+K("C13/chain/equality", ["C13"], CH + "c13_chain_equality", ["<BaseMoveChain as PartialEq>::eq"],
+  "for all pairs of chains with arbitrary start positions, arbitrary recorded moves (<= 3 each) and arbitrary stored outcomes: a == b iff start positions, move lists and stored outcomes are equal",
+  bounded="move lists of length <= 3 (std iterator zip/all; everything else unbounded)", timeout=3000, mem_gb=16)
+K("C17/walker/op-sequences", ["C17"], CH + "c17_walker_op_sequences_fixed_game", ["Walker::next", "Walker::prev", "Walker::start", "Walker::end", "Walker::set_board_pos", "BaseMoveChain::walk", "BaseMoveChain::push"],
+  "for one fixed 4-ply game and EVERY sequence of 5 operations from {next, prev, start, end}: each returned move comes with exactly the position that preceded it (raw fields, hash, combined occupancy), None exactly at the ends, and the chain is untouched (real make/unmake code)",
+  bounded="one fixed game of 4 plies, operation sequences of length 5", timeout=3600, mem_gb=20)
 
 
 def by_id():
